@@ -58,6 +58,7 @@ func TestC10(t *testing.T) {
 	for i := 0; i < mon.Pick(120, 5000); i++ {
 		targets = append(targets, CustomTarget(i))
 	}
+	targets = append(targets, NoShareTargets()...) // no usable share in the first hello: every TLS 1.3 server answers with a HelloRetryRequest
 	type job struct {
 		t  Target
 		gc GridCase
